@@ -31,8 +31,15 @@ Proof. intro. apply orb_false_intro'; [apply ltb_false|apply geb_false]; lia. Qe
 
 Section TableComplete.
   Variable t : tables.
+  Variable o : opts.      (* any option set that does not ask for individual ordering *)
+  Hypothesis Hpop : o_no_check_population_refs o = false.
+  Hypothesis Hind : o_individual_ordering o = false.
   Hypothesis W : WF t.
-  Hypothesis V : ValidTS t.
+  Hypothesis VOff : OffsetsOK t.
+  Hypothesis VN : NodesOK t.
+  Hypothesis VS : SitesOK t.
+  Hypothesis VMig : MigsOK t.
+  Hypothesis VInd : IndsOK t.
 
   Ltac lens :=
     pose proof (wf_node_pop t W); pose proof (wf_node_ind t W);
@@ -41,9 +48,9 @@ Section TableComplete.
     pose proof (wf_mig_right t W); pose proof (wf_mig_node t W); pose proof (wf_mig_source t W);
     pose proof (wf_mig_dest t W); pose proof (wf_mig_time t W).
 
-  Lemma offsets_complete_one n o len : 0 <= n -> zlen o = n + 1 ->
-    zat o 0 = 0 -> zat o n = len -> (forall j, 0 <= j < n -> zat o j <= zat o (j + 1)) ->
-    check_offsets n o len = Ok tt.
+  Lemma offsets_complete_one n off len : 0 <= n -> zlen off = n + 1 ->
+    zat off 0 = 0 -> zat off n = len -> (forall j, 0 <= j < n -> zat off j <= zat off (j + 1)) ->
+    check_offsets n off len = Ok tt.
   Proof.
     intros Hn L O0 On Mo. unfold check_offsets.
     fz. fe; [|rewrite O0; reflexivity]. fz. fe; [|rewrite On, Z.eqb_refl; reflexivity].
@@ -52,61 +59,61 @@ Section TableComplete.
 
   Lemma offsets_complete : check_all_offsets (ragged t) = Ok tt.
   Proof.
-    assert (A := wf_ragged t W). assert (B := v_offsets t V). unfold OffsetsOK in B.
-    induction (ragged t) as [|[[n o] len] r IH]; [reflexivity|].
+    assert (A := wf_ragged t W). assert (B := VOff). unfold OffsetsOK in B.
+    induction (ragged t) as [|[[n off] len] r IH]; [reflexivity|].
     inversion A; subst. inversion B; subst. destruct H1 as [Hn Hl]. destruct H3 as [O0 [On Mo]].
     simpl. rewrite offsets_complete_one by assumption. simpl. apply IH; assumption.
   Qed.
 
-  Lemma nodes_complete : check_node_integrity oT t = Ok tt.
+  Lemma nodes_complete : check_node_integrity o t = Ok tt.
   Proof.
     unfold check_node_integrity. apply for_loop_unit_iff. intros j R. lens.
-    destruct (v_nodes t V j ltac:(rng)) as [F [P I]].
-    cbn [oT imply_trees opts_trees o_trees o_no_check_population_refs negb].
+    destruct (VN j ltac:(rng)) as [F [P I]].
+    rewrite Hpop. cbn [negb].
     ff. fe; [|rewrite F; reflexivity]. fz. fe; [|apply range_chk; unfold TSK_NULL; lia]. cbn [bind].
     fz. fe; [reflexivity|apply range_chk; unfold TSK_NULL; lia].
   Qed.
 
-  Lemma sites_complete : check_site_integrity oT t = Ok tt.
+  Lemma sites_complete : check_site_integrity o t = Ok tt.
   Proof.
     unfold check_site_integrity. apply for_loop_unit_iff. intros j R.
-    destruct (v_sites t V) as [S1 S2]. destruct (S1 j ltac:(rng)) as [x [E [P Q]]].
-    cbn [oT imply_trees opts_trees o_trees o_site_duplicates o_site_ordering andb].
+    destruct (VS) as [S1 S2]. destruct (S1 j ltac:(rng)) as [x [E [P Q]]].
     ff. rewrite E. fe; [|reflexivity]. fe; [|apply orb_false_intro'; [unfold F0; simpl; apply ltb_false; lia|assumption]].
     destruct (j >? 0) eqn:C; [|reflexivity]. b2z. ff.
     specialize (S2 j ltac:(rng)). destruct (S1 (j - 1) ltac:(rng)) as [y [Ey _]]. rewrite E, Ey in *.
     simpl in S2. b2z.
-    fe; [|simpl; apply eqb_false; lia]. fe; [reflexivity|]. unfold fgt. simpl. apply ltb_false. lia.
+    fe; [|apply andb_false_iff; right; simpl; apply eqb_false; lia]. fe; [reflexivity|].
+    apply andb_false_iff; right. unfold fgt. simpl. apply ltb_false. lia.
   Qed.
 
-  Lemma migs_complete : check_migration_integrity oT t = Ok tt.
+  Lemma migs_complete : check_migration_integrity o t = Ok tt.
   Proof.
     unfold check_migration_integrity. apply for_loop_unit_iff. intros j R. lens.
-    destruct (v_migs t V) as [M1 M2].
+    destruct (VMig) as [M1 M2].
     destruct (M1 j ltac:(rng)) as [Rn [Rs [Rd [Ft [l [r [El [Er [Rlr RL]]]]]]]]].
-    cbn [oT imply_trees opts_trees o_trees o_no_check_population_refs o_migration_ordering negb andb].
+    rewrite Hpop. cbn [negb].
     fz. fe; [|apply range_chk; assumption]. fz. fe; [|apply range_chk; assumption].
     fz. fe; [|apply range_chk; assumption]. cbn [bind].
     ff. fe; [|rewrite Ft; reflexivity].
     assert (ORD : (if j >? 0 then do prev <- aget (mig_time t) (j - 1);
-                     check! fgt prev (fat (mig_time t) j) else E_UNSORTED_MIGRATIONS; Ok tt else Ok tt) = Ok tt).
+                     check! o_migration_ordering o && fgt prev (fat (mig_time t) j) else E_UNSORTED_MIGRATIONS; Ok tt else Ok tt) = Ok tt).
     { destruct (j >? 0) eqn:C; [|reflexivity]. b2z. ff. fe; [reflexivity|].
       specialize (M2 j ltac:(rng)). destruct (M1 (j - 1) ltac:(rng)) as [_ [_ [_ [Fp _]]]].
       apply isfinite_fin in Ft as [a Ea]. apply isfinite_fin in Fp as [b Eb]. rewrite Ea, Eb in *.
-      rewrite fle_fin in M2. unfold fgt. simpl. b2z. apply ltb_false. lia. }
+      rewrite fle_fin in M2. apply andb_false_iff; right. unfold fgt. simpl. b2z. apply ltb_false. lia. }
     rewrite ORD. cbn [bind]. ff. ff. rewrite El, Er.
     fe; [|reflexivity]. fe; [|unfold F0; simpl; apply ltb_false; lia]. fe; [|assumption].
     fe; [reflexivity|]. unfold fge. rewrite fle_fin. apply Z.leb_gt. lia.
   Qed.
 
-  Lemma inds_complete : check_individual_integrity oT t = Ok tt.
+  Lemma inds_complete : check_individual_integrity o t = Ok tt.
   Proof.
     unfold check_individual_integrity. apply for_loop_unit_iff. intros j R.
     destruct (wf_nind t W) as [N0 NL]. assert (Rj : 0 <= j < nind t) by lia.
     destruct (wf_ind_offsets t W j Rj) as [O1 O2].
     fz. fz. apply for_loop_unit_iff. intros k Rk.
-    destruct (v_inds t V j Rj k ltac:(lia)) as [P1 P2]. cbv zeta in P1, P2.
-    cbn [oT imply_trees opts_trees o_trees o_individual_ordering andb].
+    destruct (VInd j Rj k ltac:(lia)) as [P1 P2]. cbv zeta in P1, P2.
+    rewrite Hind. cbn [andb].
     fz. unfold TSK_NULL.
     fe; [|destruct P1 as [P1|P1]; [rewrite P1; reflexivity|
            apply andb_false_iff; right; apply range_chk; assumption]].
@@ -116,8 +123,12 @@ End TableComplete.
 
 Section EdgeComplete.
   Variable t : tables.
+  Variable o : opts.
+  Hypothesis Ho : o_edge_ordering o = true.
   Hypothesis W : WF t.
-  Hypothesis V : ValidTS t.
+  Hypothesis VN : NodesOK t.
+  Hypothesis VER : EdgeRowsOK t.
+  Hypothesis VEO : EdgeOrderOK t.
 
   Let N := num_nodes t.
   Let el e := fat (edge_left t) e.
@@ -132,16 +143,16 @@ Section EdgeComplete.
         exists a, 0 <= a /\ a + 1 < i /\ ep a = u /\ ep (a + 1) <> u).
 
   Lemma edge_step_complete i s1 : 0 <= i < num_edges t -> einv i s1 ->
-    exists s2, edge_body oT t i s1 = Ok s2 /\ einv (i + 1) s2.
+    exists s2, edge_body o t i s1 = Ok s2 /\ einv (i + 1) s2.
   Proof.
     intros Ri [LS [ST SE]].
     pose proof (wf_edge_right t W); pose proof (wf_edge_parent t W); pose proof (wf_edge_child t W).
-    destruct (v_edge_rows t V i Ri) as [RP [RC [[l [r [El [Er [Rlr RL]]]]] TO]]].
+    destruct (VER i Ri) as [RP [RC [[l [r [El [Er [Rlr RL]]]]] TO]]].
     fold (ep i) in RP. fold (ec i) in RC, TO. fold (ep i) in TO. fold N in RP, RC.
-    destruct (v_nodes t V (ep i) RP) as [FP _]. destruct (v_nodes t V (ec i) RC) as [FC _].
+    destruct (VN (ep i) RP) as [FP _]. destruct (VN (ec i) RC) as [FC _].
     apply isfinite_fin in FP as [tp ETP]. apply isfinite_fin in FC as [tc ETC].
     rewrite ETP, ETC in TO. simpl in TO. b2z.
-    unfold edge_body. cbn [oT imply_trees opts_trees o_trees o_edge_ordering].
+    unfold edge_body. rewrite Ho.
     fz. fz. ff. ff. fold (ep i) (ec i). rewrite El, Er. unfold TSK_NULL.
     fe; [|apply eqb_false; lia]. fe; [|apply range_chk; assumption].
     fe; [|apply eqb_false; lia]. fe; [|apply range_chk; assumption].
@@ -154,7 +165,7 @@ Section EdgeComplete.
     { rewrite (aget_nth_range _ _ false) by (rewrite LS; assumption). f_equal.
       destruct (nth (Z.to_nat (ep i)) (parent_seen s1) false) eqn:E; [|reflexivity]. exfalso.
       destruct (SE (ep i) RP E) as [a [A0 [A1 [A2 A3]]]].
-      destruct (v_edge_order t V) as [_ CT].
+      destruct (VEO) as [_ CT].
       specialize (CT a i ltac:(lia) ltac:(lia) A2 (a + 1) ltac:(lia)). fold (ep (a + 1)) (ep a) in CT. congruence. }
     rewrite SEEN. cbn [bind]. fe; [|reflexivity].
     destruct (i >? 0) eqn:Pos.
@@ -162,10 +173,10 @@ Section EdgeComplete.
         split; [assumption|]. split; [intros _; simpl; auto|].
         intros u Ru Hu. destruct (SE u Ru Hu) as [a [A0 [A1 _]]]. lia. }
     b2z. destruct (ST ltac:(lia)) as [LP [LC LL]].
-    destruct (v_edge_rows t V (i - 1) ltac:(lia)) as [RP1 [RC1 [[l1 [r1 [El1 [Er1 [Rlr1 RL1]]]]] _]]].
+    destruct (VER (i - 1) ltac:(lia)) as [RP1 [RC1 [[l1 [r1 [El1 [Er1 [Rlr1 RL1]]]]] _]]].
     fold (ep (i - 1)) in RP1. fold N in RP1.
-    destruct (v_nodes t V (ep (i - 1)) RP1) as [FP1 _]. apply isfinite_fin in FP1 as [tp1 ETP1].
-    destruct (v_edge_order t V) as [OO CT]. destruct (OO i ltac:(lia)) as [O1 O2].
+    destruct (VN (ep (i - 1)) RP1) as [FP1 _]. apply isfinite_fin in FP1 as [tp1 ETP1].
+    destruct (VEO) as [OO CT]. destruct (OO i ltac:(lia)) as [O1 O2].
     fold (ep (i - 1)) (ep i) (ec (i - 1)) (ec i) (el (i - 1)) (el i) in O1, O2.
     rewrite ETP, ETP1, fle_fin in O1. b2z.
     rewrite LP. ff. rewrite ETP1.
@@ -200,10 +211,10 @@ Section EdgeComplete.
       + apply KEEP; assumption.
   Qed.
 
-  Lemma edges_complete : check_edge_integrity oT t = Ok tt.
+  Lemma edges_complete : check_edge_integrity o t = Ok tt.
   Proof.
     unfold check_edge_integrity.
-    destruct (for_loop_complete (edge_body oT t) (fun i s => 0 <= i /\ einv i s)
+    destruct (for_loop_complete (edge_body o t) (fun i s => 0 <= i /\ einv i s)
                (length (edge_left t)) 0 (mkES (repeat false (length (node_time t))) 0 0 F0)) as [s' [H _]].
     - split; [lia|]. unfold einv. cbn [parent_seen last_parent last_child last_left].
       split; [unfold zlen, N, num_nodes; rewrite repeat_length; reflexivity|].
@@ -225,27 +236,33 @@ Qed.
 
 Section MutComplete.
   Variable t : tables.
+  Variable o : opts.      (* with or without TSK_CHECK_MUTATION_ORDERING *)
   Hypothesis W : WF t.
-  Hypothesis V : ValidTS t.
+  Hypothesis VN : NodesOK t.
+  Hypothesis VMR : MutRowsOK t.
+  Hypothesis VMO : MutOrderOK t.
+  Hypothesis VMX : MutKnownUnknownOK t.
 
   Let ms m := zat (mut_site t) m.
   Let mp m := zat (mut_parent t) m.
   Let mtm m := fat (mut_time t) m.
   Let unk m := is_unknown (fat (mut_time t) m).
+  Let ordering := o_mutation_ordering o.
 
   Definition minvc (i : Z) (s : mut_state) : Prop :=
     num_known s >= 0 /\ num_unknown s >= 0 /\
     (i = 0 -> num_known s = 0 /\ num_unknown s = 0 /\ last_known_time s = FPInf) /\
     (i > 0 -> (unk (i - 1) = true -> num_known s = 0) /\
-              (unk (i - 1) = false -> num_unknown s = 0 /\ last_known_time s = mtm (i - 1))).
+              (unk (i - 1) = false -> num_unknown s = 0 /\
+                 (ordering = true -> last_known_time s = mtm (i - 1)))).
 
   Lemma mut_step_complete i s1 : 0 <= i < num_mutations t -> minvc i s1 ->
-    exists s2, mut_body oT t i s1 = Ok s2 /\ minvc (i + 1) s2.
+    exists s2, mut_body o t i s1 = Ok s2 /\ minvc (i + 1) s2.
   Proof.
     intros Ri [NK [NU [I0 IP]]].
     pose proof (wf_mut_node t W); pose proof (wf_mut_parent t W); pose proof (wf_mut_time t W).
-    destruct (v_mut_rows t V i Ri) as [RS [RN [RPa [TM PA]]]]. cbv zeta in RPa, TM, PA.
-    unfold mut_body. cbn [oT imply_trees opts_trees o_trees o_mutation_ordering].
+    destruct (VMR i Ri) as [RS [RN [RPa [TM PA]]]]. cbv zeta in RPa, TM, PA.
+    unfold mut_body. fold ordering.
     fz. fe; [|apply range_chk; assumption]. fz. fe; [|apply range_chk; assumption].
     fz. unfold TSK_NULL. fe; [|apply range_chk; lia]. fe; [|apply eqb_false; lia].
     ff. cbv zeta. fold (unk i). fold (ms i) (mp i) (mtm i).
@@ -257,7 +274,7 @@ Section MutComplete.
                   else Ok tt) = Ok tt).
     { destruct (unk i) eqn:U; [reflexivity|]. simpl. destruct TM as [TM|[F LE]]; [unfold unk in U; congruence|].
       fold (mtm i) in F, LE. fe; [|rewrite F; reflexivity]. ff.
-      destruct (v_nodes t V _ RN) as [FN _]. apply isfinite_fin in FN as [y Ey]. apply isfinite_fin in F as [x Ex].
+      destruct (VN _ RN) as [FN _]. apply isfinite_fin in FN as [y Ey]. apply isfinite_fin in F as [x Ex].
       rewrite Ey, Ex in *. rewrite fle_fin in LE. b2z. fe; [reflexivity|]. simpl. apply ltb_false. lia. }
     rewrite T1. cbn [bind].
     (* the reset *)
@@ -269,16 +286,17 @@ Section MutComplete.
     rewrite T2. cbn [bind].
     assert (SR : num_known sr >= 0 /\ num_unknown sr >= 0 /\
                  (unk i = true -> num_known sr = 0) /\
-                 (unk i = false -> num_unknown sr = 0 /\ fgt (mtm i) (last_known_time sr) = false)).
+                 (unk i = false -> num_unknown sr = 0 /\
+                    (ordering = true -> fgt (mtm i) (last_known_time sr) = false))).
     { assert (FRESH : forall x, fgt x FPInf = false) by (intros []; reflexivity).
       unfold sr. destruct (i >? 0) eqn:C.
       - b2z. destruct (ms (i - 1) =? ms i) eqn:SE; simpl; [|repeat split; try lia; auto].
         b2z. destruct (IP ltac:(lia)) as [IU IK].
-        assert (MIX := v_mut_mix t V (i - 1) i ltac:(lia) ltac:(lia) SE). fold (unk (i - 1)) (unk i) in MIX.
+        assert (MIX := VMX (i - 1) i ltac:(lia) ltac:(lia) SE). fold (unk (i - 1)) (unk i) in MIX.
         split; [assumption|]. split; [assumption|]. split.
         + intro U. apply IU. congruence.
-        + intro U. destruct (IK ltac:(congruence)) as [K1 K2]. split; [assumption|]. rewrite K2.
-          destruct (v_mut_order t V i ltac:(lia)) as [_ O2]. apply fle_not_fgt. apply O2; assumption.
+        + intro U. destruct (IK ltac:(congruence)) as [K1 K2]. split; [assumption|]. intro OR. rewrite (K2 OR).
+          destruct (VMO i ltac:(lia)) as [_ O2]. apply fle_not_fgt. apply O2; assumption.
       - b2z. simpl. destruct (I0 ltac:(lia)) as [A [B C']]. rewrite A, B, C'.
         repeat split; try lia; auto. }
     destruct SR as [NK' [NU' [SU SK]]].
@@ -300,24 +318,32 @@ Section MutComplete.
       destruct (unk i) eqn:U; [reflexivity|]. simpl. ff. fe; [reflexivity|].
       apply fle_not_fgt. apply PT. assumption. }
     rewrite T3. cbn [bind].
-    assert (T4 : (if i >? 0 then do prev_site <- aget (mut_site t) (i - 1);
-                    check! (prev_site >? ms i) else E_UNSORTED_MUTATIONS; Ok tt else Ok tt) = Ok tt).
-    { destruct (i >? 0) eqn:C; [|reflexivity]. b2z. fz. fe; [reflexivity|].
-      destruct (v_mut_order t V i ltac:(lia)) as [O1 _]. apply gtb_false. assumption. }
-    rewrite T4. cbn [bind].
-    fe; [|apply andb_false_iff; right; apply gtb_false; fold (mp i) in RPa; lia].
-    destruct (unk i) eqn:U; simpl.
-    - eexists. split; [reflexivity|]. unfold minvc. simpl. replace (i + 1 - 1) with i by lia. fold (unk i). rewrite U.
-      split; [lia|]. split; [lia|]. split; [intro; lia|]. intros _. split; [intros _; apply SU; reflexivity|intro; discriminate].
-    - destruct (SK eq_refl) as [Q1 Q2]. fe; [|assumption].
-      eexists. split; [reflexivity|]. unfold minvc. simpl. replace (i + 1 - 1) with i by lia. fold (unk i). rewrite U.
-      split; [lia|]. split; [lia|]. split; [intro; lia|]. intros _. split; [intro; discriminate|intros _; auto].
+    destruct ordering eqn:OR.
+    - assert (T4 : (if i >? 0 then do prev_site <- aget (mut_site t) (i - 1);
+                      check! (prev_site >? ms i) else E_UNSORTED_MUTATIONS; Ok tt else Ok tt) = Ok tt).
+      { destruct (i >? 0) eqn:C; [|reflexivity]. b2z. fz. fe; [reflexivity|].
+        destruct (VMO i ltac:(lia)) as [O1 _]. apply gtb_false. assumption. }
+      rewrite T4. cbn [bind].
+      fe; [|apply andb_false_iff; right; apply gtb_false; fold (mp i) in RPa; lia].
+      destruct (unk i) eqn:U; simpl.
+      + eexists. split; [reflexivity|]. unfold minvc. simpl. replace (i + 1 - 1) with i by lia. fold (unk i). rewrite U.
+        split; [lia|]. split; [lia|]. split; [intro; lia|]. intros _. split; [intros _; apply SU; reflexivity|intro; discriminate].
+      + destruct (SK eq_refl) as [Q1 Q2]. fe; [|apply Q2; reflexivity].
+        eexists. split; [reflexivity|]. unfold minvc. simpl. replace (i + 1 - 1) with i by lia. fold (unk i). rewrite U.
+        split; [lia|]. split; [lia|]. split; [intro; lia|]. intros _. split; [intro; discriminate|intros _; auto].
+    - eexists. split; [reflexivity|]. unfold minvc. cbn [num_known num_unknown last_known_time].
+      replace (i + 1 - 1) with i by lia. fold (unk i).
+      destruct (unk i) eqn:U.
+      + split; [lia|]. split; [lia|]. split; [intro; lia|]. intros _. split; [intros _; apply SU; reflexivity|intro; discriminate].
+      + destruct (SK eq_refl) as [Q1 _].
+        split; [lia|]. split; [lia|]. split; [intro; lia|]. intros _. split; [intro; discriminate|].
+        intros _. split; [assumption|]. intro Q. congruence.
   Qed.
 
-  Lemma muts_complete : check_mutation_integrity oT t = Ok tt.
+  Lemma muts_complete : check_mutation_integrity o t = Ok tt.
   Proof.
     unfold check_mutation_integrity.
-    destruct (for_loop_complete (mut_body oT t) (fun i s => 0 <= i /\ minvc i s)
+    destruct (for_loop_complete (mut_body o t) (fun i s => 0 <= i /\ minvc i s)
                (length (mut_site t)) 0 (mkMS FPInf 0 0)) as [s' [H _]].
     - split; [lia|]. unfold minvc. simpl. repeat split; try lia.
     - intros i s1 R [R0 I1]. destruct (mut_step_complete i s1) as [s2 [B I2]]; [rng|assumption|].
